@@ -366,9 +366,14 @@ class Conic(Quadric):
         y = Point(c1 * a1 - c2 * a2, copy=False)
 
         conic = cls.from_points(a, b, c, d, x)
-        if np.all(np.isreal(conic.array)) and not conic.is_degenerate:
-            return conic
-        return cls.from_points(a, b, c, d, y)
+        if not np.all(np.isreal(conic.array)):
+            return cls.from_points(a, b, c, d, y)
+        if conic.is_degenerate:
+            # prefer the other solution if it is a proper conic
+            other = cls.from_points(a, b, c, d, y)
+            if not other.is_degenerate:
+                return other
+        return conic
 
     @classmethod
     def from_foci(cls, f1: Point, f2: Point, bound: Point) -> Conic:
